@@ -17,13 +17,63 @@ def union_of(t, a, b):
     return t in (('op', '|', a, b), ('op', '|', b, a))
 
 
+def says_subset(c, is_small, is_big):
+    """c states small <= big as sets of bits: (small & big) == small or (small | big) == big, either way round."""
+    if not (isinstance(c, tuple) and len(c) == 4 and c[0] == 'op' and c[1] == '=='):
+        return False
+    for a, b in ((c[2], c[3]), (c[3], c[2])):
+        a, b = strip_value(a), strip_value(b)
+        if isinstance(a, tuple) and a[0] == 'op' and len(a) == 4:
+            x, y = strip_value(a[2]), strip_value(a[3])
+            pair = (is_small(x) and is_big(y)) or (is_small(y) and is_big(x))
+            if pair and a[1] == '&' and is_small(b):
+                return True
+            if pair and a[1] == '|' and is_big(b):
+                return True
+    return False
+
+
 def strip_value(t):
     while isinstance(t, tuple) and t and t[0] == 'castto':
         t = t[2]
     return t
 
 
-def run(ck, F):
+class _Only:
+    """View of a checker that keeps the instances of some rules only (used when another property borrows one rule)."""
+
+    def __init__(self, ck, keep):
+        self.ck, self.keep, self.extra = ck, keep, ck.extra
+
+    def rule(self, rid, text, floor=0):
+        return self.ck.rule(rid, text, floor=floor) if rid.split('.', 1)[1] in self.keep else None
+
+    def check(self, R, *a, **k):
+        if R is not None:
+            self.ck.check(R, *a, **k)
+
+    def fail(self, R, *a, **k):
+        if R is not None:
+            self.ck.fail(R, *a, **k)
+
+    def ok(self, R, *a, **k):
+        if R is not None:
+            self.ck.ok(R, *a, **k)
+
+    def note(self, *a, **k):
+        pass
+
+    def assume(self, *a, **k):
+        pass
+
+
+def merge_rule_for(ck, F, prefix):
+    """The merge rule under another property's name (C01: the qualified constructor maps a request to the node of its
+    normal form -- same union, same node; a different union, a different node)."""
+    run(_Only(ck, {'merge'}), F, prefix=prefix)
+
+
+def run(ck, F, prefix='C11'):
     ck.explanation = (
         'get_qualified is evaluated symbolically three ways: on an empty qualifier set (must be refused), on an operand '
         'of unknown category, and -- the inductive step -- on the Qualified node that a previous request (q1, T) returned, '
@@ -32,11 +82,11 @@ def run(ck, F):
         '(union is commutative and associative).')
     f = F.need_fn(GQ)
     S = Sym(F, opaque=contracts.default_opaque(F), max_depth=48)
-    R1 = ck.rule('C11.empty-refused', 'asking for a qualified type with the empty qualifier set is refused with a logic error '
+    R1 = ck.rule(prefix + '.empty-refused', 'asking for a qualified type with the empty qualifier set is refused with a logic error '
                  'before anything is inserted', floor=1)
-    R2 = ck.rule('C11.merge', 'qualifying a Qualified node yields the node for the union of both sets over the inner main '
+    R2 = ck.rule(prefix + '.merge', 'qualifying a Qualified node yields the node for the union of both sets over the inner main '
                  'variant; the main variant of a stored Qualified is never Qualified', floor=2)
-    R3 = ck.rule('C11.only-constructor', 'impl::Qualified nodes are created only by get_qualified', floor=1)
+    R3 = ck.rule(prefix + '.only-constructor', 'impl::Qualified nodes are created only by get_qualified', floor=1)
     try:
         outs = S.run(f['id'])
     except Unsupported as e:
@@ -58,6 +108,19 @@ def run(ck, F):
     for i, (st, v) in enumerate([(st, v) for st, v in rets_all if (ISA, True) in st.conds]):
         good = isinstance(v, tuple) and v[0] == 'call' and v[1] == GQ and len(v[3]) == 2
         what = 'yields ' + contracts.render(v, st, {}) + ' instead of re-issuing the request on the merged set'
+        if v == ('param', 1) or v == ('deref', ('addr', ('param', 1))):
+            # the operand itself is the answer exactly when the requested set adds nothing: q is a subset of T.qualifiers()
+            def quals_of_operand(t):
+                t = strip_value(t)
+                return isinstance(t, tuple) and t[0] == 'vcall' and t[2] == ('param', 1) and contracts.fn_simple(t[1]) in ('first', 'qualifiers')
+
+            def subset(c):
+                return says_subset(c, lambda t: t == ('param', 0), quals_of_operand)
+            ok_short = any(val and subset(c) for c, val in st.conds) and not any(e[0] == 'tree_insert' for e in st.effects)
+            ck.check(R2, f'operand that is Qualified/path{i}', ok_short, 'get_qualified(q, T) for a Qualified T answers T itself on a path '
+                     'whose condition (' + contracts.render_conds(st.conds, st, {})[:160] + ') does not say that q is contained in T.qualifiers(): '
+                     'the union q | T.qualifiers() is a different set, hence a different node', loc=f['loc'], fn=f['id'])
+            continue
         if good:
             q, mv = strip_value(v[3][0]), v[3][1]
             qs = [x for x in (q[2], q[3])] if q[0] == 'op' and q[1] == '|' else []
@@ -120,7 +183,8 @@ def run(ck, F):
         what = []
         if main != ('param', 1):
             what.append(f'its main variant is {contracts.render(main, st2, {node1[1]: "Qualified(q1,T)"})} instead of T')
-        if not found_cond and not union_of(quals, Q0, ('param', 0)):
+        absorbed = quals == ('param', 0) and any(val and says_subset(c, lambda t: t == Q0, lambda t: t == ('param', 0)) for c, val in st2.conds)
+        if not found_cond and not union_of(quals, Q0, ('param', 0)) and not absorbed:
             what.append(f'its qualifiers are {contracts.render(quals, st2, {})} instead of q1|q2')
         ck.check(R2, f'Qualified operand/path{i}', not what,
                  'get_qualified(q2, get_qualified(q1, T)): ' + '; '.join(what) + ' (the documented invariant '
